@@ -166,10 +166,12 @@ def rule_parsefresh(P) -> RuleResult:
         raise AnalysisError('anchor vanished: beanquery.parser.parse')
     TEXT = _S('TEXT')
     receivers = []
+    configs = []
 
     def on_call(fn, fv, rc, args, kw, ex, node):
         if str(fn).split('.')[-1] == 'parse' and rc is not None and args[:1] == (TEXT,):
             receivers.append(rc)
+            configs.append((tuple(args[1:]), tuple(kw), rc))
             return _S('TREE')
         return NotImplemented
     for p in _E(P, on_call=on_call, max_depth=1).paths(pf[-1], {pf[-1].params[0]: TEXT}):
@@ -182,6 +184,18 @@ def rule_parsefresh(P) -> RuleResult:
             res.fail(pf[-1].fq, 'parsefresh:parser', f'parse() runs the statement through `{_sh(rc)[:60]}`, a parser object that outlives the call: '
                      f'the generated parser keeps its tokenizer, stacks and memo tables on the instance, so two statements parsed at the '
                      f'same time (two threads, any connections) corrupt each other', loc(pf[-1]))
+    # the language parsed is the grammar's: the only thing parse() adds to the generated parser is the semantic actions
+    for extra, kw_, rc in configs:
+        over = [k for k, _ in kw_ if k not in ('semantics',)] + [f'positional argument {i + 2}' for i in range(len(extra))]
+        if isinstance(rc, _T) and rc.op in ('call', 'new'):
+            cargs = rc.args[1] if len(rc.args) > 1 else ()
+            ckw = rc.args[2] if len(rc.args) > 2 else ()
+            over += [f'{k} (parser constructor)' for k, _ in ckw if k not in ('semantics',)] + \
+                [f'constructor argument {i + 1}' for i in range(len(cargs))]
+        if over:
+            res.fail(pf[-1].fq, 'parsefresh:config', f'parse() overrides the configuration the parser was generated with ({", ".join(over)}): '
+                     f'white space, comments, keywords, name guard and case folding are part of the grammar (bql.ebnf and its directives); '
+                     f'an override makes the shipped parser accept a different language than the grammar describes', loc(pf[-1]))
     if not res.findings:
         res.ok({'modules': list(mods), 'functions_examined': n, 'memoised': 0, 'writes_outliving_a_parse': 0, 'parser_object': 'one per call'})
     return res
